@@ -243,7 +243,10 @@ def oracle_(c, obs):
                 x = L.pop(st['i'])
                 if r[0] != 'ok' or enc_item(dt, r[1]) != enc_item(dt, x) or E(its2) != E(L) or trail2 != trail: return f"{where}: got {r} {its2}; list gives {x}, {L}"
             elif op == 'count':
-                exp = sum(1 for x in L if pv(x) == pv(st['v']))
+                ev = enc_item(dt, st['v'])
+                if ev is None: continue          # the value is not one of the current dtype (the dtype was changed by an earlier step): not specified
+                same = lambda x: (pv(x) == pv(st['v'])) if type(pv(x)) is type(pv(st['v'])) else (enc_item(dt, x) == ev)
+                exp = sum(1 for x in L if same(x))
                 if r[0] == 'ok' and r[1] != exp: return f"{where} returned {r}, list gives {exp}"
             elif op == 'iter':
                 if r[0] != 'ok' or E(r[1]) != E(L): return f"{where}: iteration gave {r}"
